@@ -33,10 +33,11 @@ impl<ElemT> TokenRing<ElemT> {
     /// After reaching the maximum token it wraps around and continues from the lowest one.
     /// The iterator visits each member once, it doesn't have infinite length.
     pub fn ring_range_full(&self, token: Token) -> impl Iterator<Item = &(Token, ElemT)> {
-        let binary_search_index: usize = match self.ring.binary_search_by(|e| e.0.cmp(&token)) {
-            Ok(exact_match_index) => exact_match_index,
-            Err(first_greater_index) => first_greater_index,
-        };
+        // Index of the first member whose token is greater or equal to `token`.
+        // `partition_point` (rather than `binary_search_by`) makes this well defined also when
+        // several members own the same token: the walk must start at the first of them, otherwise
+        // it would skip members that own the very token being looked up.
+        let binary_search_index: usize = self.ring.partition_point(|e| e.0 < token);
 
         self.ring[binary_search_index..]
             .iter()
